@@ -38,7 +38,9 @@ int main() {
     std::vector<std::string> t = hx::split_ws(line);
     if (t.empty()) { std::cout << "?\n"; continue; }
     try {
-      if (t[0] == "Q" && t.size() == 2) {
+      if (t[0] == "C") {
+        std::cout << "kInfiniteEnd=" << FieldRange::kInfiniteEnd << " sizeof_unsigned_long=" << sizeof(unsigned long) << "\n";
+      } else if (t[0] == "Q" && t.size() == 2) {
         std::vector<FieldRange> r;
         preprocess::ParseFields(Arg(t[1]).c_str(), r);
         ShowRanges(r);
